@@ -102,6 +102,7 @@ func buildTagFields(rt reflect.Type, out, pretty, embedded, omitEmpty bool) (fa 
 			if f.Type.Kind() == reflect.Ptr {
 				for _, fi := range buildTagFields(f.Type.Elem(), out, pretty, embedded, omitEmpty) {
 					fi.index = append([]int{i}, fi.index...)
+					fi.iAppend = skipNilEmbedded(fi.iAppend)
 					fi.Append = fi.iAppend
 					fa = append(fa, fi)
 				}
@@ -161,6 +162,7 @@ func buildExactFields(rt reflect.Type, out, pretty, embedded, omitEmpty bool) (f
 			if f.Type.Kind() == reflect.Ptr {
 				for _, fi := range buildExactFields(f.Type.Elem(), out, pretty, embedded, omitEmpty) {
 					fi.index = append([]int{i}, fi.index...)
+					fi.iAppend = skipNilEmbedded(fi.iAppend)
 					fi.Append = fi.iAppend
 					fa = append(fa, fi)
 				}
@@ -189,6 +191,7 @@ func buildLowFields(rt reflect.Type, out, pretty, embedded, omitEmpty bool) (fa 
 			if f.Type.Kind() == reflect.Ptr {
 				for _, fi := range buildLowFields(f.Type.Elem(), out, pretty, embedded, omitEmpty) {
 					fi.index = append([]int{i}, fi.index...)
+					fi.iAppend = skipNilEmbedded(fi.iAppend)
 					fi.Append = fi.iAppend
 					fa = append(fa, fi)
 				}
